@@ -56,8 +56,14 @@ theorem sweeps_are_two_halves (N : Nat) (o : List Bool) :
     (tdvp12Sweep N o).1 = (tdvp12Fwd N N false o).1 ++ (tdvp12Bwd N N false (tdvp12Fwd N N false o).2).1 ++ [.clr [0], .upd 0 .first] :=
   ⟨rfl, rfl, rfl⟩
 
-/- palindromy of '1site'/'2site' (second half = exact reverse of the first), full statement, checked on instances below:
-   theorem sweep_palindromic_1site (N) : updsOf N (bwd half) = (updsOf N (fwd half)).reverse -/
+/-- '1site' and '2site' are palindromic: the local updates of the second half are exactly those of the first half in the
+opposite order (⇒ symmetric second-order composition). -/
+theorem sweep_palindromic (N : Nat) :
+    updsOf N ((List.range N).reverse.flatMap (tdvp1Step N .first)) =
+      mirror (updsOf N ((List.range N).flatMap (tdvp1Step N .last))) ∧
+    updsOf N ((List.range (N - 1)).reverse.flatMap (tdvp2Step N .first)) =
+      mirror (updsOf N ((List.range (N - 1)).flatMap (tdvp2Step N .last))) :=
+  ⟨sweep_palindromic_1site N, sweep_palindromic_2site N⟩
 
 /-! ## environment freshness -/
 
